@@ -171,6 +171,9 @@ def run(ctx):
             rep = ('../' if style == 'cwd' else '') + 'report/files.' + fmt
             gen['list_processed_files'] = rep
             gen['support_lib_sources'] = r.random() < 0.25
+            if r.random() < 0.4:
+                # all types in one YAML file whose configured name may have a directory part: it lands at <yaml.out>/<out_file>
+                gen['yaml'] = dict(gen['yaml'], out_file=r.choice(['types.yaml', 'exported/demo/types.yaml', 'sub/all.yml']))
             if r.random() < 0.5:
                 gen['jni'] = dict(gen['jni'], loader=True) if 'loader' not in gen['jni'] else gen['jni']
             targets = r.sample(['cpp', 'java', 'objc', 'cppcli', 'yaml'], r.randint(1, 5))
@@ -264,6 +267,13 @@ def run(ctx):
             ctx.add_violation({'kind': 'report-files-differ', 'missing': bool(miss), 'extra': bool(extra)},
                               'report lists %d files, %d were written; not listed: %s; listed but not written: %s' %
                               (len(listed), sum(logged.values()), [os.path.relpath(x, root) for x in miss[:4]], [os.path.relpath(x, root) for x in extra[:4]]), rep0)
+        yo = m['gen'].get('yaml', {})
+        if 'yaml' in m['targets'] and yo.get('out_file'):
+            want_y = os.path.relpath(os.path.join(dirs['yaml'][0], yo['out_file']), root)
+            if want_y not in o['tree']:
+                ctx.add_violation({'kind': 'file-not-at-configured-name', 'generator': 'yaml'},
+                                  'generate.yaml.out_file=%s: expected %s, the yaml files written are %s' %
+                                  (yo['out_file'], want_y, sorted(p_ for p_ in o['tree'] if p_.endswith(('.yaml', '.yml')) and not p_.startswith('ext/'))[:4]), rep0)
         # every listed file exists when the run is over (support-library copies included: a copy that is recorded but not made is a lie)
         gone = sorted(x for x in set(listed) if os.path.relpath(x, root) not in o['tree'])
         if gone:
